@@ -71,6 +71,8 @@ def harness(tier, seed):
     for r in range(runs + len(big)):
         # the last runs: numbers of cities at the boundaries of the integer types a tour can be stored in
         n = rng.randint(4, 9) if r < runs else big[r - runs]
+        if r in (1, 4):
+            n = 2 if r == 1 else 3      # the smallest instances: no proper segment reversal exists, nothing may be registered wrongly
         mx = rng.choice([1, 3, 20, 1000, 10 ** 9, 5 * 10 ** 9, 10 ** 12] if r < runs else [3, 20, 1000])
         m = np.zeros((n, n), np.int64)
         for i in range(n):
@@ -101,6 +103,6 @@ def harness(tier, seed):
             if len(samples) < 3:
                 samples.append({"algo": cls.__name__, "n": n, "pairs_registered": p.pairs, "last_y": p.last})
     return {"name": "tsp_solve_monitor", "evaluations": evals, "distinct_nontrivial": distinct,
-            "rule": "random symmetric matrices n in 4..9 and n in 127..257 (storage-type boundaries), both solve() methods, budgets of 400 and (every third small instance) 3200 FEs in quick, every register(x, y) call checked "
+            "rule": "random symmetric matrices n in 4..9 (two runs: n = 2 and n = 3) and n in 127..257 (storage-type boundaries), both solve() methods, budgets of 400 and (every third small instance) 3200 FEs in quick, every register(x, y) call checked "
                     "(permutation, exact length, EA monotone, y within [0, upper bound]); distinct = distinct tours registered",
             "samples": samples, "violations": viol, "exhaustive": False}
